@@ -284,27 +284,25 @@ def judge_sequence(inp, recs):
     kind, mr, ign = inp['kind'], inp['mr'], inp['ign']
     bad = []
     prev_seq = None
-    nreq = 0
-    has_probe = any(r.get('probe') for r in inp['reqs'])
+    nstep = 0
     for j, (r, rec) in enumerate(zip(inp['reqs'], recs)):
         is_probe = bool(r.get('probe'))
-        if not is_probe:
-            nreq += 1
-        seq = (inp['seq0'] + nreq) % 64
+        if not (is_probe and kind == 'rmcp'):      # class Rmcp has no probe: nothing written, no number taken
+            nstep += 1
+        seq = (inp['seq0'] + nstep) % 64
         h = request_header(kind, inp['slave'], seq, r['rq'], r.get('routing'))
-        # consecutive requests carry different sequence numbers (seq_{k+1} = seq_k + 1 mod 64 in a history of
-        # plain requests; with probes in between: different from the frame written before)
+        # consecutive requests - probes are requests of their own - carry different sequence numbers:
+        # seq_{k+1} = seq_k + 1 mod 64
         for f in rec['sent']:
             got = f[4] >> 2
-            if is_probe:
-                if prev_seq is not None and got == prev_seq:
-                    bad.append(('%s:probe-reuses-sequence-number' % kind,
-                                'step %d: is_ipmc_accessible writes its Get Device ID with sequence number %d, the '
-                                'number of the frame written before it' % (j, got)))
-            elif (not has_probe and got != seq) or (prev_seq is not None and got == prev_seq):
+            if is_probe and prev_seq is not None and got == prev_seq:
+                bad.append(('%s:probe-reuses-sequence-number' % kind,
+                            'step %d: is_ipmc_accessible writes its Get Device ID with sequence number %d, the '
+                            'number of the frame written before it' % (j, got)))
+            elif got != seq or (prev_seq is not None and got == prev_seq):
                 bad.append(('%s:sequence-number-not-incremented' % kind,
-                            'request %d written with sequence number %d, expected %d (previous frame: %r)'
-                            % (j, got, seq, prev_seq)))
+                            '%s %d written with sequence number %d, expected %d (previous frame: %r)'
+                            % ('probe' if is_probe else 'request', j, got, seq, prev_seq)))
         if rec['sent']:
             prev_seq = rec['sent'][0][4] >> 2
         # data of a late reply to an EARLIER step is never the answer
